@@ -1,5 +1,6 @@
 import ChiDriver.Common
 import ChiModel.Samplers
+import ChiModel.PopComposed
 open Wire ChiModel
 namespace ChiDriver.C06
 
@@ -194,9 +195,40 @@ def momentsOp : Op
     | _ => none
   | _ => none
 
+/-- `C06.pop.score <mode> <subs> <nIds> <params> <cov rows> <obs rows>` → [loop score, sum of the parts] | err
+    `compute_log_likelihood` of the model the samplers above belong to, at ANY rows (sampled or not). The rows
+    are the individuals: with a heterogeneous part their number has to be `n_ids`. -/
+def popScoreOp : Op
+  | [.str mode, subsV, nIdsV, parV, covV, obsV] => do
+    let subs ← subsV.list? >>= (·.mapM subOf)
+    let nIds ← nIdsV.nat?
+    let par ← parV.flts?
+    let covRows ← covV.fltss?
+    let obs ← obsV.fltss?
+    let shapeOk := match mode, subs with
+      | "elem", [s] => s.nCov == 0
+      | "cov", [s] => s.nCov != 0
+      | "composed", _ => true
+      | _, _ => false
+    if !shapeOk then none else
+    let nRows := obs.length
+    let hasH := subs.any (fun s => s.kind == .hetero)
+    let nCovTot := totalCov subs
+    let covOk :=
+      if nCovTot = 0 then true
+      else covRows.all (fun r => r.length == nCovTot) && (covRows.length == 1 || covRows.length == nRows)
+    if par.length != totalTop nIds subs || !covOk || (hasH && nRows != nIds)
+        || !obs.all (fun r => r.length == totalDim subs) then return [errVal "valueError"]
+    let n := if hasH then nIds else nRows
+    let cov : Nat → Nat → Float := fun i c =>
+      if covRows.length == 1 then (covRows.getD 0 []).getD c 0.0 else (covRows.getD i []).getD c 0.0
+    some [scoreVal (composedLL n subs (vecF par) (matF obs) cov),
+      scoreVal (composedLLSpec n subs (vecF par) (matF obs) cov)]
+  | _ => none
+
 def ops : List (String × Op) :=
   [("C06.em.ndraws", emNDrawsOp), ("C06.em.sample", emSampleOp), ("C06.reduced", reducedOp),
    ("C06.pop.plan", popPlanOp), ("C06.pop.sample", popSampleOp), ("C06.pop.psi", popPsiOp),
-   ("C06.moments", momentsOp)]
+   ("C06.moments", momentsOp), ("C06.pop.score", popScoreOp)]
 
 end ChiDriver.C06
